@@ -54,6 +54,15 @@ D = 2
 # parameters (inputs of every program)
 # ---------------------------------------------------------------------------
 def make_params(vi, seed):
+    if vi == "Z":
+        # every vector-like parameter (means, information vectors, offsets, centres, weights, log-constants) EXACTLY zero,
+        # matrices as in the first catalogue set: points where norms, square roots and abs() are not differentiable
+        P = make_params(0, seed)
+        for k in list(P):
+            if np.ndim(P[k]) <= 1 or k in ("W1", "KA", "KBm", "KC", "KDm"):
+                P[k] = P[k] * 0.0
+        P["g1"] = J(np.array(0.3))
+        return P
     rng = al.rng_for(seed, "c18", vi)
     g = (lambda *s: rng.uniform(-1, 1, size=s)) if vi >= 100 else None
     P = {}
@@ -436,6 +445,11 @@ def shards(tier, seed):
         tl = [t for t in TEMPLATES if not t.startswith("Hetero") or t.split(".")[0][6:] in BOUNDS[tier]["hetero_links"] or not t.endswith("bound")]
         for t in tl:
             out.append(dict(id="C18/template/v%d/%s" % (vi, t), part="template", vi=vi, name=t, cost=30 if t.endswith("bound") else 4, facts=dict(template=t)))
+    # the all-zero parameter point, for the templates whose functions are smooth there (the kinked links are not)
+    for t in TEMPLATES:
+        if "Heaviside" in t or "ReLU" in t or t.endswith("bound") or t == "Truncated.call":  # (indicator of the interval: a data point sits on a limit)
+            continue
+        out.append(dict(id="C18/template/vZ/%s" % t, part="template", vi="Z", name=t, cost=4, facts=dict(template=t, point="zero")))
     for cls in CROSS_CLASSES:
         out.append(dict(id="C18/crossing/%s" % cls, part="crossing", cls=cls, cost=3, facts=dict(cls=cls)))
     for vi in sorted(set(BOUNDS[tier]["vi"]) | {100}):
